@@ -179,6 +179,10 @@ def run(ctx, rep):
     rep.rule("R08-VERSION", "every arm/branch mentioning Plutus version n uses version n throughout", floor=9)
     rep.rule("R08-PAYLOAD", "per constant kind both encoders and both decoders delegate the payload to the same library codec (pallas Flat impl of the payload type; Data via its CBOR fragment); local wrappers are expanded", floor=25)
     rep.rule("R08-LOADHASH", "Deserialize for SerializableProgram accepts an entry on the hash of the decoded program's own re-encoding (to_cbor), for each Plutus version", floor=3)
+    rep.rule("R08-CTORSITE", "a SerializableProgram version variant is chosen only from a version in hand: in a match arm on that very version (PlutusVersion / Language / the same variant), or under the comparison of the stored hash with the hash for that version", floor=9)
+    rep.guarded("R08-CTORSITE", lambda: r_ctorsite(sh, rep))
+    rep.rule("R08-ADDR", "Project::address and Project::policy hash a loaded validator under its own Plutus version (compiled_code_and_hash of the variant, never `.inner()` plus a version from elsewhere); the delegation part keeps the kind of the stake credential (key -> Key, script -> Script)", floor=4)
+    rep.guarded("R08-ADDR", lambda: r_addr(sh, rep))
     rep.guarded("R08-PAYLOAD", lambda: r_payload(sh, rep))
     rep.guarded("R08-LOADHASH", lambda: r_loadhash(sh, rep))
     # load -> apply -> save must leave bystander validators byte-identical: the write-back selects by key equality (rule owned by C18)
@@ -837,3 +841,71 @@ def r_loadhash(sh, rep):
         from_program = any(y["k"] == "MethodCall" and y["m"] == "to_cbor" for s_ in src_nodes for y in walk(s_))
         ver = re.search(r"<\s*(\d)\s*>", c["f"].get("full", "") or "")
         rep.check(from_program, "R08-LOADHASH", "deserialize#PlutusV%s#hash-of-reencoding" % (ver.group(1) if ver else "?"), sh.loc(A, c), "the version check hashes bytes that do not come from the decoded program's own to_cbor(): an entry whose bytes differ from our encoder's form is accepted on the hash of its raw bytes, and the next save publishes different code and a different hash", sample={"arg": sh.nsrc(A, arg)[:60]})
+
+
+# ---------------------------------------------------------------------------------------------------------
+# R08-CTORSITE: who may pick the Plutus version of a serialised program
+# ---------------------------------------------------------------------------------------------------------
+def r_ctorsite(sh, rep):
+    """The variant of SerializableProgram *is* the script's Plutus version: it selects the hash prefix and the blueprint
+    preamble. A variant written down without a version in hand (a default when the hash is absent, a re-wrap after a
+    transformation) silently changes the published hash of every script of another version."""
+    n = 0
+    for rel in sh.files():
+        if not rel.startswith("crates/") or "/tests/" in rel or rel.endswith("/tests.rs"):
+            continue
+        fj = sh.file(rel)
+        for q, f in all_fns(fj):
+            if "body" not in f:
+                continue
+            for node, anc in walk_parents(f["body"]):
+                if node.get("k") != "Path":
+                    continue
+                m = re.search(r"(?:^|::)PlutusV([123])Program$", node.get("p") or "")
+                if not m:
+                    continue
+                k = m.group(1)
+                n += 1
+                ok, via = False, ""
+                for a in reversed(anc):
+                    if a.get("k") == "Arm":
+                        heads = [pat_head(x) or "" for x in pat_alts(a["pat"])]
+                        if heads and all(re.search(r"(PlutusVersion::V%s|PlutusV%s|PlutusV%sProgram)$" % (k, k, k), h) for h in heads):
+                            ok, via = True, "match arm on " + heads[0]
+                        break
+                    if a.get("k") == "If":
+                        c = sh.nsrc(rel, a["cond"])
+                        if re.search(r"PlutusScript::<%s>" % k, c) and "hash" in c and "==" in c:
+                            ok, via = True, "hash comparison for version " + k
+                        break
+                rep.check(ok, "R08-CTORSITE", "%s#PlutusV%sProgram" % (q, k), sh.loc(rel, node), "%s writes SerializableProgram::PlutusV%sProgram without a version in hand (not in a match arm on version %s, not under the comparison of the stored hash with the V%s hash): a script of another version that passes here is re-labelled, and its hash and address change" % (q, k, k, k), why_ok=via, sample={"function": q, "via": via})
+    if n < 9:
+        raise AnchorMissing("SerializableProgram variant constructions (found %d, 12 on the pinned tree)" % n)
+
+
+# ---------------------------------------------------------------------------------------------------------
+# R08-ADDR: address / policy of a validator loaded from a blueprint
+# ---------------------------------------------------------------------------------------------------------
+def r_addr(sh, rep):
+    PL = "crates/aiken-project/src/lib.rs"
+    fj = sh.file(PL)
+    for name in ("address", "policy"):
+        f = find_method(fj, "Project", name)
+        rep.touched(PL, "Project::" + name)
+        src = sh.nsrc(PL, f["body"])
+        rep.check("compiled_code_and_hash(" in src, "R08-ADDR", "Project::%s#hash-under-the-validator's-own-version" % name, sh.loc(PL, f), "Project::%s must take the script hash from SerializableProgram::compiled_code_and_hash, which hashes under the version of the variant the blueprint was loaded into: a hash under any other version (the project configuration's, say) is the hash of a different script" % name)
+        stripped = [c for c in walk(f["body"]) if c.get("k") == "MethodCall" and c["m"] in ("address", "compute_hash", "hash") and ".inner()" in sh.nsrc(PL, c["recv"])]
+        rep.check(not stripped, "R08-ADDR", "Project::%s#version-not-discarded" % name, sh.loc(PL, stripped[0]) if stripped else sh.loc(PL, f), "Project::%s hashes `%s`: `.inner()` drops the Plutus version recovered from the blueprint, and the version supplied instead need not be the script's — a v1 / v2 blueprint gets the address of the v3 hash" % (name, sh.nsrc(PL, stripped[0])[:90] if stripped else ""))
+    # stake credential kind
+    f = find_method(fj, "Project", "address")
+    rows = {}
+    for m in matches_in(f["body"]):
+        for a in m["arms"]:
+            for alt in pat_alts(a["pat"]):
+                inner = [last(x.get("p") or "") for x in walk(alt) if x.get("k") in ("PTupleStruct", "PPath", "PStruct") and "StakePayload::" in (x.get("p") or "")]
+                built = [last(x.get("p") or "") for x in walk(a["body"]) if x.get("k") == "Path" and "ShelleyDelegationPart::" in (x.get("p") or "")]
+                for i in inner:
+                    rows[i] = built
+    want = {"Stake": ["Key"], "Script": ["Script"]}
+    for k, w in want.items():
+        rep.check(rows.get(k) == w, "R08-ADDR", "Project::address#delegation#%s" % k, sh.loc(PL, f), "a stake credential of kind %s must become ShelleyDelegationPart::%s (found %s): the header nibble of the address encodes the kind, and a script credential labelled as a key is another address" % (k, w[0], rows.get(k)), sample={"rows": rows})
